@@ -474,6 +474,24 @@ def r_assignment_program(ctx):
             if msg is None and comp.attrs.get("_value") is not None:
                 msg = "a derived expression is given a value by the post-solve assignment (derived values are computed on demand from the leaves)"
             results.append((negative, verbose, path, msg))
+    # an LMI entry whose decomposition holds a key of another kind (a lone point) is rejected by the walk over the LMIs
+    env, pts, exs, comp = model()
+    comp.attrs["decomposition_dict"] = {exs[2]: 2, pts[1]: 7}
+    it = _Interp(env, False)
+    it.home = (repo, fn._module, "PEP")
+    it.choices = [False] * 8
+    raised = False
+    try:
+        it.run(fn.body)
+    except _NeedChoice:
+        raised = None
+    except AnalysisError as ex:
+        raised = "the index program raises" in str(ex)
+        if not raised:
+            raise AnalysisError("post-solve assignment not interpretable: %s" % ex)
+    if raised is not None:
+        ctx.ob("R-KEYKINDS", "PEP.%s::a key of another kind in an LMI entry (unrolled)" % fn.name, raised,
+               "a decomposition key that is a lone point raises" if raised else "an LMI entry with a key of another kind (a lone point) is silently accepted", loc(fn, fn))
     for negative, verbose, path, msg in results:
         ctx.ob("R-LEAFREG", "PEP.%s::%s eigenvalue, verbose=%d%s (unrolled)" % (fn.name, "a negative" if negative else "no negative", verbose,
                                                                                ", " + path if path else ""), msg is None,
@@ -548,6 +566,34 @@ def r_expression_eval_program(ctx):
             else:
                 raise AnalysisError("Expression.eval not interpretable: %s" % ex)
         results.append((order, msg))
+    # a key that is neither a leaf expression, a pair of points nor the constant is rejected
+    me = SymObj("Expression", label="ill-formed combination", counter=None, _is_leaf=False, _value=None, decomposition_dict={exs[1]: Rat.sym("w1"), pts[0]: Rat.sym("wP")})
+    env = {params_of(fn)[0]: me, "Expression": ("type", "Expression"), "Point": ("type", "Point"), "tuple": ("type", "tuple"),
+           "int": ("type", "int"), "float": ("type", "float"), "Point.counter": 2, "Expression.counter": 2}
+
+    def on_call2(node, it):
+        nm = call_name(node)
+        if isinstance(node.func, ast.Attribute) and nm in ("eval", "get_is_leaf") and not node.args:
+            try:
+                o = it.ev(node.func.value)
+            except AnalysisError:
+                return NotImplemented
+            if isinstance(o, SymObj) and nm == "get_is_leaf":
+                return o.attrs["_is_leaf"]
+            if isinstance(o, SymObj) and o.attrs.get("_is_leaf"):
+                return o.attrs["_value"]
+        return NotImplemented
+    it = IndexInterp(env, on_call=on_call2, check_asserts=True)
+    it.home = (repo, fn._module, "Expression")
+    raised = False
+    try:
+        it.run(fn.body)
+    except AnalysisError as ex:
+        raised = "the index program raises" in str(ex)
+        if not raised:
+            raise AnalysisError("Expression.eval not interpretable: %s" % ex)
+    ctx.ob("R-KEYKINDS", "Expression.eval::a key of another kind (unrolled)", raised,
+           "a decomposition key that is a lone point raises" if raised else "a decomposition key of another kind (a lone point) is silently ignored / accepted", loc(fn, fn))
     for order, msg in results:
         ctx.ob("R-EVALSHAPE", "Expression.eval::combination, key order %d (unrolled)" % order, msg is None,
                "value = sum of weight * value of the term, terms read through their accessors" if msg is None else msg, loc(fn, fn))
